@@ -267,7 +267,29 @@ class OdeModel:
         func = inline_constants(_copy.deepcopy(self.func), pkg, "TemplateLoader")
         # a generator method that hands records to a consuming loop (`for rec in self._iter_terms(..): rhs[rec.row] += ..`) is put
         # back in place, and a namedtuple / dataclass that only carries the values across is replaced by its fields
-        from .normalize import inline_generator_loops, scalarise_records
+        from .normalize import inline_generator_loops, scalarise_records, scalarise_local_objects
+
+        def _class_of(f_, _pkg=pkg):
+            # a plain helper class of this module (`_Table(..)`) or nested in TemplateLoader (`self._Table(..)`)
+            nm = f_.id if isinstance(f_, ast.Name) else f_.attr if isinstance(f_, ast.Attribute) and isinstance(f_.value, ast.Name) and f_.value.id in ("self", "cls", "TemplateLoader") else None
+            if nm is None:
+                return None
+            ci = _pkg.classes.get(nm) if isinstance(f_, ast.Name) else _pkg.classes.get("TemplateLoader." + nm)
+            if ci is None or ci.file != FILE:
+                return None
+            node = copy_cls.get(ci.name)
+            if node is None:
+                node = copy_cls[ci.name] = inline_constants_in_class(_copy.deepcopy(ci.node), _pkg)
+            return node
+        copy_cls = {}
+
+        def inline_constants_in_class(node, _pkg):
+            for b in node.body:
+                if isinstance(b, ast.FunctionDef):
+                    inline_constants(b, _pkg, "TemplateLoader")
+            return node
+        # a local helper object that only carries the tables and the code filling them is that code, its fields plain locals
+        func = scalarise_local_objects(func, _class_of)
         func = inline_generator_loops(func, _stmt_resolver)
         func = scalarise_records(func, lambda name, _pkg=pkg: record_fields(_pkg, name))
         func = inline_stmt_calls(func, _stmt_resolver)
